@@ -10,6 +10,8 @@ if TYPE_CHECKING:
 
 
 HEXBIN_SUFFIX = {"x", "X", "b", "B"}
+# Internal token for the unary minus operator, must not be a valid identifier or operator
+UNARY_MINUS = "-u"
 
 
 class ExpressionTokenizer:
@@ -167,7 +169,7 @@ class Expression:
     }
 
     unary_operators: ClassVar[dict[str, Callable[[int], int]]] = {
-        "u": lambda a: -a,
+        UNARY_MINUS: lambda a: -a,
         "~": lambda a: ~a,
     }
 
@@ -182,7 +184,7 @@ class Expression:
         "*": 5,
         "/": 5,
         "%": 5,
-        "u": 6,
+        UNARY_MINUS: 6,
         "~": 6,
         "sizeof": 6,
     }
@@ -235,10 +237,10 @@ class Expression:
         for i in range(len(self.tokens)):
             if self.tokens[i] == "-":
                 if i == 0:
-                    self.tokens[i] = "u"
+                    self.tokens[i] = UNARY_MINUS
                     continue
-                if self.tokens[i - 1] in operators or self.tokens[i - 1] == "u" or self.tokens[i - 1] == "(":
-                    self.tokens[i] = "u"
+                if self.tokens[i - 1] in operators or self.tokens[i - 1] == "(":
+                    self.tokens[i] = UNARY_MINUS
                     continue
 
         i = 0
